@@ -50,7 +50,7 @@ def hammingSphere (s : Bytes) (k : Nat) : List Bytes := hammingSphereK k s
 /-- one cell of the two C matrices `costs` / `matches` -/
 structure Cell where
   cost : Nat
-  matches : Nat
+  nmatch : Nat
 deriving Repr, BEq, DecidableEq, Inhabited
 
 /-- `memset(costs, k+1, …)` writes the *byte* `k+1` everywhere: a cell that is never assigned reads as the `int`
@@ -70,9 +70,9 @@ def stepCell (mismatch : Nat) (diag left up : Cell) : Cell :=
   let d := diag.cost + mismatch
   let l := left.cost + 1
   let u := up.cost + 1
-  if d ≤ l ∧ d ≤ u then ⟨d, diag.matches + (1 - mismatch)⟩
-  else if l ≤ u then ⟨l, left.matches⟩
-  else ⟨u, up.matches⟩
+  if d ≤ l ∧ d ≤ u then ⟨d, diag.nmatch + (1 - mismatch)⟩
+  else if l ≤ u then ⟨l, left.nmatch⟩
+  else ⟨u, up.nmatch⟩
 
 /-- `j ∈ range(max(1, i - k), min(n + 1, i + k + 1))` for `1 ≤ j ≤ n` -/
 def inBand (k i j : Nat) : Bool := decide (i ≤ j + k) && decide (j ≤ i + k)
@@ -93,9 +93,12 @@ def nextRow (k i : Nat) (code : UInt8) (t : List UInt8) (prev : List Cell) : Lis
 /-- row 0: `costs[j] = j` -/
 def row0 (n : Nat) : List Cell := (List.range (n + 1)).map (fun j => ⟨j, 0⟩)
 
-/-- `min_cost` of row `i ≥ 1`: minimum over the cells the loop wrote (columns `j ≥ 1` inside the band) -/
-def rowMin (k i : Nat) (row : List Cell) : Nat :=
-  row.zipIdx.foldl (fun m (cj : Cell × Nat) => if 1 ≤ cj.2 ∧ inBand k i cj.2 then min m cj.1.cost else m) 999999999
+/-- `min_cost` of row `i ≥ 1`: minimum over the cells the loop wrote (columns `j ≥ 1` inside the band),
+    starting from `999999999` -/
+def rowMinFrom (k i : Nat) : Nat → List Cell → Nat → Nat
+  | _, [], m => m
+  | j, c :: cs, m => rowMinFrom k i (j+1) cs (if inBand k i j then min m c.cost else m)
+def rowMin (k i : Nat) (row : List Cell) : Nat := rowMinFrom k i 1 row.tail 999999999
 
 /-- One trie node (`while True` iteration): yield if `costs[i][n] ≤ k`, then descend into the four children when
     `min_cost ≤ k and i < n + k` (`fuel = n + k - i`). Pre-order, children in the order A, C, G, T — the order in which
@@ -103,7 +106,7 @@ def rowMin (k i : Nat) (row : List Cell) : Nat :=
 def envNode (t : List UInt8) (k : Nat) : Nat → Nat → Bytes → List Cell → Nat → List (Bytes × Nat × Nat)
   | fuel, i, sRev, row, minCost =>
     let last := row.getD t.length ⟨0, 0⟩
-    let here := if last.cost ≤ k then [(sRev.reverse, last.cost, last.matches)] else []
+    let here := if last.cost ≤ k then [(sRev.reverse, last.cost, last.nmatch)] else []
     match fuel with
     | 0 => here
     | fuel+1 =>
@@ -241,6 +244,8 @@ structure IndexMatch where
   errors : Nat
 deriving Repr, BEq, DecidableEq, Inhabited
 
+instance : Inhabited Adapter := ⟨{ ty := .prefix, seq := [], thr := fun _ => 0, minOverlap := 0, readWildcards := false, adapterWildcards := false, indels := false }⟩
+
 /-- `_make_prefix(s, n) = s[:n]`, `_make_suffix(s, n) = s[-n:]` (`s[-0:]` is all of `s`; so is `s[-n:]` for `n > len(s)`) -/
 def makeAffix (isPrefix : Bool) (s : Bytes) (n : Nat) : Bytes :=
   if isPrefix then pySlice s none (some (n : Int)) else pySlice s (some (-(n : Int))) none
@@ -249,8 +254,6 @@ def makeMatch {D : Type} (idx : AdapterIndex D) (ai length : Nat) (score : Int) 
   let alen := (idx.adapters.getD ai default).seq.length
   if idx.isPrefix then ⟨ai, 0, alen, 0, length, score, errors⟩
   else ⟨ai, 0, alen, (sequence.length : Int) - (length : Int), sequence.length, score, errors⟩
-
-instance : Inhabited Adapter := ⟨⟨.prefix, [], fun _ => 0, 0, false, false, false, false, ""⟩⟩
 
 /-- `_lookup_with_n`: look up with `N → A`, then re-align with the adapter's own `match_to` (k-mer prefilter not
     modelled here, see `Adapters.matchTo`); returns `(adapter, match.errors, match.score)` -/
